@@ -41,6 +41,9 @@ def is_pack_fd(K, fd):
 
 
 def real_fullfsync():
+    from ..resolve import PLATFORM
+    if 'fcntl.F_FULLFSYNC' in PLATFORM:
+        return PLATFORM['fcntl.F_FULLFSYNC'] or None
     try:
         import fcntl
         v = getattr(fcntl, 'F_FULLFSYNC', None)
@@ -142,15 +145,16 @@ class PackSites:
 
 
 # state indices
-CH, CUR, KF, R, BK, DK, T, B, D = range(9)
+CH, CUR, KF, R, BK, DK, T, B, D, INT = range(10)
 
 
 class PackMachine(Machine):
     """See module docstring. State = (chosen, cur, kframe, R, Bk, Dk, T, B, D)."""
 
     def __init__(self, ctx, g, require_durable, rule_flush='C05.R2', rule_durable='C06.R3', rule_unlink='C05.R2',
-                 exc=False, commit_expected=True):
+                 exc=False, commit_expected=True, rule_exc='C17.R3'):
         self.ctx = ctx
+        self.rule_exc = rule_exc
         self.K = ctx.kinds
         self.sites = PackSites(ctx, g)
         self.require_durable = require_durable
@@ -163,7 +167,17 @@ class PackMachine(Machine):
         self.rule = rule_flush
 
     def initial(self, g):
-        return [(False, False, None, 'none', 'flushed', 'durable', False, 'flushed', 'durable')]
+        return [(False, False, None, 'none', 'flushed', 'durable', False, 'flushed', 'durable', False)]
+
+    def edge_state(self, edge, st, node, g):
+        if not self.edge_ok(edge, st, node, g):
+            return None
+        if edge.kind == 'e' and st[CUR] and st[R] == 'none' and not st[INT] and node.kind in ('call', 'raise', 'enter'):
+            # an exception interrupts the processing of the generic object before its row is staged
+            s = list(st)
+            s[INT] = True
+            return tuple(s)
+        return st
 
     def edge_ok(self, edge, st, node, g):
         c = edge.cond
@@ -181,6 +195,7 @@ class PackMachine(Machine):
             fid = S.loop_heads[nid]
             base = list(st)
             base[CUR] = False
+            base[INT] = False
             out = [tuple(base)]
             if not st[CH]:
                 b2 = list(base)
@@ -191,6 +206,9 @@ class PackMachine(Machine):
         viol = []
         if nid in S.stage_nodes and s[CUR] and S.stage_nodes[nid][0] == s[KF] and s[R] == 'none':
             s[R] = 'staged'
+            if s[INT]:
+                viol.append(Violation(self.rule_exc, node, st, 'an index row is staged for an object whose processing was interrupted by an '
+                                      'exception that a handler swallowed (its pack bytes may be incomplete)'))
         if nid in S.reset_nodes and S.reset_nodes[nid][0] == s[KF] and s[R] == 'staged':
             s[R] = 'dropped'
         if nid in S.track_nodes and s[CUR]:
